@@ -176,12 +176,171 @@ def c18d(ctx, tu):
         ctx.ob("C18.d", NS + "streamer<T,false,false>::print", ok, pattern=fn.pat, unit=tu.name, inst=fn.q,
                detail="" if ok else "an opaque value must be dumped as exactly sizeof(T) bytes starting at its address")
     for fn in tu.find(NS + "hexdump"):
-        # iterates exactly [begin, begin+size)
-        s = str([e for b, e in fn.events() if e["e"] in ("decl", "ctor")])
-        ok = "mini_span" in s and "'param', 0" in s and "'param', 1" in s
-        ctx.ob("C18.d", NS + "hexdump", ok, pattern=fn.pat, unit=tu.name,
-               detail="" if ok else "hexdump must walk exactly the `size` bytes starting at `begin`")
+        c18d_walk(ctx, tu, fn)
     return n
+
+
+WIDE_INT = {"short", "unsigned short", "int", "unsigned int", "long", "unsigned long", "long long", "unsigned long long"}
+BYTE_T = {"unsigned char", "std::byte"}
+
+
+def _unq(t):
+    t = re.sub(r"\b(const|volatile)\b", "", t or "").replace("&", "").strip()
+    return re.sub(r"\s+", " ", t)
+
+
+def _has(tree, pred):
+    return any(pred(t) for t in lib.subtrees(tree))
+
+
+def c18d_walk(ctx, tu, fn):
+    """hexdump visits exactly the bytes [begin, begin+size), each once and in address order (C18.d), reads each as
+    an unsigned 8-bit object and hands it to a numeric inserter through types that all represent 0..255
+    (C18.d.bytes).  Two iteration idioms are understood - a mini_span over (begin, size) traversed by
+    std::for_each / range-for, and a counted for loop indexing the byte pointer; anything else is reported as
+    analysis broken, never as a verdict."""
+    evs = [(b["id"], e) for b, e in fn.flow_events()] if hasattr(fn, "flow_events") else [(b["id"], e) for b, e in fn.events()]
+    decls = {e["var"]: e for _, e in evs if e["e"] == "decl"}
+    is_begin = lambda t: t[:2] == ["param", 0]
+    # byte ranges: pointer / span variables derived from `begin`
+    ranges = {}          # var -> pointee type
+    for v, d in decls.items():
+        t = d.get("type") or ""
+        init = d.get("init")
+        if not _has(init, is_begin):
+            continue
+        if "mini_span" in t:
+            m = re.search(r"mini_span<(.*)>$", t.strip())
+            ranges[v] = ("span", _unq(m.group(1)) if m else "?", init)
+        elif t.rstrip().endswith("*"):
+            ranges[v] = ("ptr", _unq(t.rstrip()[:-1]), init)
+    pointee = set(r[1] for r in ranges.values())
+    casts = [c for _, e in evs for k in ("args", "init", "x") for c in lib.subtrees(e.get(k))
+             if c[:1] == ["cast"] and c[1].rstrip().endswith("*") and _has(c[2:], is_begin)]
+    pointee |= set(_unq(c[1].rstrip()[:-1]) for c in casts)
+    if not pointee:
+        raise lib.AnalysisBroken("C18.d: hexdump never converts `begin` to a byte pointer")
+    walk_why = None
+    byte_why = None
+    if not pointee <= BYTE_T:
+        byte_why = "the object's bytes are read through `%s`; only unsigned char (uint8_t) reads a byte as 0..255" \
+            % sorted(pointee - BYTE_T)[0]
+
+    def is_range(t):
+        return (t[:1] == ["var"] and t[1] in ranges) or (t[:1] == ["cast"] and _has(t[2:], is_begin))
+
+    sinks = []           # (function, event, types on the way)
+    idiom = None
+    spans = [v for v, r in ranges.items() if r[0] == "span"]
+    if spans:
+        idiom = "span"
+        v = spans[0]
+        init = ranges[v][2]
+        a = init[3] if init[:1] == ["ctor"] and len(init) > 3 else []
+        if not (len(a) == 2 and lib.strip_casts(a[0])[:2] == ["param", 0] and a[1][:2] == ["param", 1]):
+            walk_why = "the byte span is not constructed from (begin, size)"
+        # the span type itself: [address, address + size)
+        for c in tu.find_re(r"trompeloeil::mini_span::mini_span$"):
+            if c.rec.get("implicit") or len(c.rec.get("params", ())) != 2:
+                continue
+            inits = {e["field"].rsplit("::", 1)[-1]: e.get("x") for b, e in c.events() if e["e"] == "init" and "field" in e}
+            ok = inits.get("begin_", [])[:2] == ["param", 0] and \
+                inits.get("end_") in (["b", "+", ["param", 0, c.rec["params"][0]["n"]], ["param", 1, c.rec["params"][1]["n"]]],)
+            if not ok and walk_why is None:
+                walk_why = "mini_span(address, size) does not delimit [address, address + size)"
+        for nm, fld in (("begin", "begin_"), ("end", "end_")):
+            for m in tu.find_re(r"trompeloeil::mini_span::%s$" % nm):
+                rets = [e.get("x") for b, e in m.events() if e["e"] == "return"]
+                if not (len(rets) == 1 and rets[0][:1] == ["member"] and rets[0][1].endswith("::" + fld)) and walk_why is None:
+                    walk_why = "mini_span::%s() does not return %s" % (nm, fld)
+        # traversal: std::for_each(span.begin(), span.end(), lambda) or a range-for over the span
+        fe = [e for _, e in evs if e["e"] == "call" and erase(e.get("q", "")) == "std::for_each"]
+        rf = [b for b in fn.rec["blocks"] if b.get("term", {}).get("kind") == "rangefor"]
+        if fe:
+            a = fe[0]["args"]
+            ok = len(a) == 3 and a[0][:1] == ["mcall"] and a[0][2].endswith("::begin") and a[0][3][:2] == ["var", v] and \
+                a[1][:1] == ["mcall"] and a[1][2].endswith("::end") and a[1][3][:2] == ["var", v] and a[2][:1] == ["lambda"]
+            if not ok and walk_why is None:
+                walk_why = "for_each does not traverse [span.begin(), span.end())"
+            for _, e in evs:
+                if e["e"] == "lambda" and e.get("callop") in tu.fns:
+                    lam = tu.fns[e["callop"]]
+                    for b2, e2 in lam.events():
+                        if e2["e"] == "call" and e2.get("op") == "<<" and e2.get("args") and \
+                                _has(e2["args"][-1], lambda t: t[:2] == ["param", 0]):
+                            sinks.append((lam, e2, [_unq(lam.rec["params"][0]["t"])]))
+        elif rf:
+            rng = [d for d in decls.values() if (d.get("name") or "").startswith("__range")]
+            if not (rng and _has(rng[0].get("init"), lambda t: t[:2] == ["var", v])) and walk_why is None:
+                walk_why = "the range-for does not traverse the byte span"
+            l = cfg.loop_containing(fn, rf[0]["id"])
+            if l is not None and l["exit_edges"] and walk_why is None:
+                walk_why = "the byte loop can be left before `size` bytes have been dumped"
+            elems = set(d["var"] for d in decls.values() if _has(d.get("init"), lambda t: t[:1] == ["u"] and t[1] == "*" or
+                                                                  (t[:1] == ["opcall"] and t[3] == "*")))
+            for _, e in evs:
+                if e["e"] == "call" and e.get("op") == "<<" and e.get("args") and \
+                        _has(e["args"][-1], lambda t: t[:1] == ["var"] and t[1] in elems):
+                    sinks.append((fn, e, [_unq(decls[x].get("type")) for x in elems]))
+        else:
+            idiom = None
+    if idiom is None:
+        # counted loop: for (i = 0; i < size; ++i) ... ptr[i]
+        for b in fn.rec["blocks"]:
+            t = b.get("term", {})
+            if t.get("kind") not in ("for", "while"):
+                continue
+            c = t.get("cond") or []
+            if not (c[:1] == ["b"] and c[1] in ("<", "!=") and c[2][:1] == ["var"] and c[3][:2] == ["param", 1]):
+                continue
+            idiom = "index"
+            i = c[2][1]
+            d = decls.get(i)
+            l = cfg.loop_containing(fn, b["id"])
+            mods = [e for _, e in evs if (e["e"] == "incdec" and e.get("x", [])[:2] == ["var", i]) or
+                    (e["e"] == "assign" and str(e.get("lhs", e.get("x")))[:20].find("'var', %d," % i) >= 0)]
+            if d is None or d.get("init") != ["int", 0]:
+                walk_why = "the byte index does not start at 0"
+            elif len(mods) != 1 or mods[0]["e"] != "incdec" or mods[0].get("op") != "++":
+                walk_why = "the byte index is not advanced by exactly one per iteration"
+            elif l is None or l["exit_edges"]:
+                walk_why = "the byte loop can be left before `size` bytes have been dumped"
+            else:
+                inc_b = [bid for bid, e in evs if e is mods[0]][0]
+                if t.get("kind") != "for" or inc_b not in l["body"]:
+                    walk_why = "the increment is not the loop's own step"
+            is_elem = lambda tr: tr[:1] == ["index"] and is_range(tr[1]) and tr[2][:2] == ["var", i]
+            elems = set(v for v, dd in decls.items() if _has(dd.get("init"), is_elem))
+            for _, e in evs:
+                if e["e"] == "call" and e.get("op") == "<<" and e.get("args"):
+                    a = e["args"][-1]
+                    if _has(a, is_elem) or _has(a, lambda tr: tr[:1] == ["var"] and tr[1] in elems):
+                        ts = [_unq(decls[x].get("type")) for x in elems if _has(a, lambda tr: tr[:2] == ["var", x])]
+                        for x in elems:
+                            ts += [_unq(cc_[1]) for cc_ in lib.subtrees(decls[x].get("init")) if cc_[:1] == ["cast"]
+                                   and not cc_[1].rstrip().endswith("*")]
+                        sinks.append((fn, e, ts))
+            break
+    if idiom is None:
+        raise lib.AnalysisBroken("C18.d: hexdump's iteration over the bytes uses an idiom this rule does not model")
+    if not sinks:
+        raise lib.AnalysisBroken("C18.d: no per-byte insertion found in hexdump")
+    if len(sinks) != 1 and walk_why is None:
+        walk_why = "a byte is inserted %d times per visit" % len(sinks)
+    ctx.ob("C18.d", NS + "hexdump", walk_why is None, pattern=fn.pat, unit=tu.name,
+           detail="" if walk_why is None else "hexdump must walk exactly the `size` bytes starting at `begin`: " + walk_why)
+    for f, e, types in sinks:
+        a = e["args"][-1]
+        types = list(types) + [_unq(c[1]) for c in lib.subtrees(a) if c[:1] == ["cast"] and not c[1].rstrip().endswith("*")]
+        callee = tu.fns.get(e.get("callee"))
+        ins = _unq(callee.rec["params"][-1]["t"]) if callee is not None and callee.rec.get("params") else ""
+        badt = [t for t in types if t not in WIDE_INT and t not in BYTE_T]
+        if byte_why is None and ins not in WIDE_INT:
+            byte_why = "a byte is inserted through operator<<(%s), which does not print it as a number" % (ins or "?")
+        elif byte_why is None and badt:
+            byte_why = "a byte passes through type `%s` on its way to the stream, which does not represent 0..255" % badt[0]
+    ctx.ob("C18.d.bytes", NS + "hexdump", byte_why is None, pattern=fn.pat, unit=tu.name,
+           detail="" if byte_why is None else byte_why)
 
 
 WITNESS = r'''
